@@ -288,7 +288,8 @@ Proof.
   destruct (cyclic_core rs X Y) as [[[Xc Yc] E]|] eqn:Ecc; [|discriminate].
   destruct (cyclic_core_sound _ _ _ _ _ Ecc HX) as [HXc Inv].
   destruct Xc as [|x0 Xc'].
-  - inversion H; subst. apply Inv; [apply incl_refl | intros x []].
+  - destruct (ub <=? _)%nat; [discriminate|].
+    inversion H; subst. apply Inv; [apply incl_refl | intros x []].
   - remember (x0 :: Xc') as Xc eqn:EXc. clear EXc.
     destruct (ub <=? _)%nat; [discriminate|].
     destruct (pick Yc) as [d|]; [|discriminate].
